@@ -55,4 +55,39 @@ theorem CheckNonce_eq (E : Go.Ext) (nonce : Option Str) (hashed : Str) :
   simp only [HashNonce_eq, bind, Except.bind, pure, Except.pure, Go.hmacEqual]
   by_cases h : hashNonce E.sha nonce = hashed <;> simp [h]
 
+/-! the CSRF cookie's own checks are these, on its two nonces -/
+
+theorem HashOAuthState_eq (E : Go.Ext) (st : Option Str) :
+    Gen.Tr.HashOAuthState E st = .ok (hashNonce E.sha st) := by
+  simp [Gen.Tr.HashOAuthState, HashNonce_eq, bind, Except.bind, pure, Except.pure]
+
+theorem HashOIDCNonce_eq (E : Go.Ext) (n : Option Str) :
+    Gen.Tr.HashOIDCNonce E n = .ok (hashNonce E.sha n) := by
+  simp [Gen.Tr.HashOIDCNonce, HashNonce_eq, bind, Except.bind, pure, Except.pure]
+
+theorem CheckOAuthState_eq (E : Go.Ext) (st : Option Str) (hashed : Str) :
+    Gen.Tr.CheckOAuthState E st hashed = .ok (checkNonce E.sha st hashed) := by
+  simp [Gen.Tr.CheckOAuthState, CheckNonce_eq, bind, Except.bind, pure, Except.pure]
+
+theorem CheckOIDCNonce_eq (E : Go.Ext) (n : Option Str) (hashed : Str) :
+    Gen.Tr.CheckOIDCNonce E n hashed = .ok (checkNonce E.sha n hashed) := by
+  simp [Gen.Tr.CheckOIDCNonce, CheckNonce_eq, bind, Except.bind, pure, Except.pure]
+
+/-- **C03 on the regenerated check**: the callback's state nonce is accepted against a CSRF cookie holding the
+    nonce `n` exactly when it is the unpadded URL-base64 of SHA-256(n) — the value `/oauth2/start` put into the
+    state when it set that cookie (`HashOAuthState_eq`) -/
+theorem state_accepted_iff (E : Go.Ext) (n hashed : Str) :
+    Gen.Tr.CheckOAuthState E (some n) hashed = .ok true ↔ hashed = b64Encode true false (E.sha n) := by
+  rw [CheckOAuthState_eq]
+  simp only [Except.ok.injEq, checkNonce, hashNonce]
+  rw [decide_eq_true_iff]
+  exact eq_comm
+
+/-- … and the state `/oauth2/start` issues for that cookie is accepted by it -/
+theorem own_state_accepted (E : Go.Ext) (n : Str) :
+    ∃ h, Gen.Tr.HashOAuthState E (some n) = .ok h ∧ Gen.Tr.CheckOAuthState E (some n) h = .ok true := by
+  refine ⟨_, HashOAuthState_eq E (some n), ?_⟩
+  rw [state_accepted_iff]
+  rfl
+
 end O2P.TrState
